@@ -2,9 +2,8 @@ CONSTANTS K1 = 3
           K2 = 2
           K3 = 1
           Wide = 0
+          Part = "a"
 INIT Init
 NEXT Next
-INVARIANT Lemmas
-INVARIANT Emit
-INVARIANT Count
+INVARIANT Inv
 CHECK_DEADLOCK FALSE
